@@ -13,7 +13,7 @@
    strict weak order (true for binary64 off NaN). *)
 Require Import Base.Prelude C05.Sweep C05.Tree C05.ProofsTreeBase C05.ProofsTreeRot
         C05.ProofsTreeInv C05.ProofsTreeFix C05.ProofsTreeIns C05.ProofsTreeQry C05.ProofsTreeStruct
-        C05.ProofsTreeDel C05.ProofsTreeWeak C05.ProofsTreeTotal C05.TreeBounded.
+        C05.ProofsTreeDel C05.ProofsTreeDelMax C05.ProofsTreeSeq C05.ProofsTreeWeak C05.ProofsTreeTotal C05.TreeBounded.
 Require Import Permutation.
 Open Scope Z_scope.
 
@@ -154,31 +154,90 @@ Proof.
 Qed.
 Print Assumptions C05_tree_delete_fixup_preserves.
 
-(* (T8) _delete_from_tree refines the abstract del_key of Sweep.v (links, in-order
-   sequence, keys, payloads — the successor copy included; NOT the cached maxima,
-   see C05_tree_delete_max_not_preserved).  On a well-formed key-sorted tree, for ANY
+(* (T8s) structure-only version of T8 (premise SGood instead of Good; it also holds for the
+   pre-fix loops): _delete_from_tree refines the abstract del_key of Sweep.v (links, in-order
+   sequence, keys, payloads — the successor copy included).  On a well-formed key-sorted tree, for ANY
    fuel: if the model returns, then either it reports "node not found" and the abstract
    del_key finds no such key, or it returns a well-formed key-sorted tree whose
    abstraction is exactly what del_key returns, frees a row d that was in the tree and
    is not any more (the id sequences differ by d), and NIL is still BLACK.  The
    "successor not found" error never occurs. *)
-Theorem C05_tree_delete_refines :
-  forall (K G N : Type) (klt : K -> K -> bool) (ggt geq : G -> G -> bool) (nmin : N -> G),
+Theorem C05_tree_delete_refines_structure :
+  forall (K G N : Type) (klt : K -> K -> bool) (ggt : G -> G -> bool) (nmin : N -> G),
     (forall a b c, klt a b = true -> klt b c = true -> klt a c = true) ->
     (forall a b c, klt a c = true -> klt a b = true \/ klt b c = true) ->
     forall fuel (t : @tree K G N) key res l,
       SGood (th t) (troot t) l -> KSorted klt (th t) l -> hred (th t) NIL = false ->
-      t_delete klt ggt geq nmin fuel t key = Some res ->
+      t_delete klt ggt nmin fuel t key = Some res ->
       (res = DNotFound /\ del_key klt key (tabs (th t) l) = None) \/
       (exists h' root' d l', res = DOk (mkTree h' root') d /\
          SGood h' root' l' /\ KSorted klt h' l' /\
          del_key klt key (tabs (th t) l) = Some (tabs h' l') /\
          Permutation l (d :: l') /\ hred h' NIL = false).
 Proof.
-  intros K G N klt ggt geq nmin H1 H2 fuel t key res l.
-  exact (t_delete_ok ggt nmin geq klt H1 H2 fuel t key res l).
+  intros K G N klt ggt nmin H1 H2 fuel t key res l.
+  exact (t_delete_ok ggt nmin klt H1 H2 fuel t key res l).
+Qed.
+Print Assumptions C05_tree_delete_refines_structure.
+
+(* (T8) _delete_from_tree (fixed code, e4337e3: both repair loops recompute every ancestor)
+   preserves the FULL invariant Good — links, parent pointers, distinct ids AND every
+   cached maximum = maximum of min3 over its subtree (unlinking, the upward recomputation,
+   the successor copy, _rb_delete_fixup) — and refines del_key on the abstraction. *)
+Theorem C05_tree_delete_refines :
+  forall (K G N : Type) (klt : K -> K -> bool) (ggt : G -> G -> bool) (nmin : N -> G) (smallest : G),
+    (forall a b, ggt a b = true -> ggt b a = false) ->
+    (forall a b c, gle ggt a b -> gle ggt b c -> gle ggt a c) ->
+    (forall a b c, klt a b = true -> klt b c = true -> klt a c = true) ->
+    (forall a b c, klt a c = true -> klt a b = true \/ klt b c = true) ->
+    forall fuel (t : @tree K G N) key res l,
+      Good ggt nmin smallest (th t) (troot t) l -> KSorted klt (th t) l -> hred (th t) NIL = false ->
+      t_delete klt ggt nmin fuel t key = Some res ->
+      (res = DNotFound /\ del_key klt key (tabs (th t) l) = None) \/
+      (exists h' root' d l', res = DOk (mkTree h' root') d /\
+         Good ggt nmin smallest h' root' l' /\ KSorted klt h' l' /\
+         del_key klt key (tabs (th t) l) = Some (tabs h' l') /\
+         Permutation l (d :: l') /\ hred h' NIL = false).
+Proof.
+  intros K G N klt ggt nmin smallest H1 H2 H3 H4 fuel t key res l.
+  exact (t_delete_ok_g ggt nmin smallest H1 H2 klt H3 H4 fuel t key res l).
 Qed.
 Print Assumptions C05_tree_delete_refines.
+
+(* (T13) THE REFINEMENT over operation sequences.  Start from _create_status_struct
+   (c_init: dummy root with key k0, payload v0; idle stack 2, 3, ..); drive the concrete tree
+   with ANY sequence of inserts / deletes / queries whose keys lie above k0 and whose
+   gradients are >= SMALLEST_GRAD.  Then, as long as the model returns (RStop = out of
+   fuel / out-of-bounds guard / idle stack empty: nothing claimed afterwards; fuel
+   sufficiency of insert / delete is not proved) and no key is inserted twice:
+     - every insert succeeds and the abstract status gains (k, v);
+     - every delete answers "not found" exactly when del_key finds nothing, otherwise it
+       succeeds and the abstract status becomes del_key's result;
+     - every query returns a maximum m with (not m > g) = visible_q of the abstract status.
+   Behind it (Rinv): after every prefix the tree satisfies the full invariant Good, its keys
+   are sorted, its in-order abstraction is a permutation of the dummy entry followed by the
+   abstract status, and the idle rows are fresh.
+   Premises: strict weak orders; the dummy's min3 equals SMALLEST_GRAD and it is never
+   hit; the phase-1 premise of the query for every payload. *)
+Theorem C05_rbtree_refines_status :
+  forall (A K G N : Type) (klt : K -> K -> bool) (ggt : G -> G -> bool) (nmin : N -> G)
+         (ncontrib : N -> A -> option G) (smallest : G) (k0 : K) (v0 : N),
+    (forall a b, ggt a b = true -> ggt b a = false) ->
+    (forall a b c, gle ggt a b -> gle ggt b c -> gle ggt a c) ->
+    (forall a b c, klt a b = true -> klt b c = true -> klt a c = true) ->
+    (forall a, klt a a = false) ->
+    (forall a b c, klt a c = true -> klt a b = true \/ klt b c = true) ->
+    gle ggt smallest (nmin v0) -> gle ggt (nmin v0) smallest ->
+    (forall a g, gle ggt smallest g -> hit ggt ncontrib g a v0 = false) ->
+    (forall n a g, ggt (nmin n) g = true -> hit ggt ncontrib g a n = true) ->
+    forall (num_nodes : Z) (ops : list (@cop A K G N)),
+      Forall (op_ok klt ggt nmin smallest k0) ops ->
+      refines klt ggt nmin ncontrib smallest (c_init smallest k0 v0 num_nodes) [] ops.
+Proof.
+  intros A K G N klt ggt nmin ncontrib smallest k0 v0 H1 H2 H3 H4 H5 D1 D2 D3 P1 n ops Hok.
+  exact (refines_from_empty klt ggt nmin ncontrib smallest k0 v0 H1 H2 H3 H4 H5 D1 D2 D3 P1 n ops Hok).
+Qed.
+Print Assumptions C05_rbtree_refines_status.
 
 (* ---- the ONE-SIDED cached-maximum invariant.  WGood h root l: links / parent
    pointers / distinct ids as in Good, and every cached maximum is SMALLEST_GRAD or is
@@ -300,13 +359,11 @@ Theorem C05_bounded_tree_refines_small :
 Proof. exact bounded_refines. Qed.
 Print Assumptions C05_bounded_tree_refines_small.
 
-(* ---- UNCLAIMED, and FALSE in spirit for the code as written: the full refinement
-   statement for the concrete tree, i.e. the bound of (T4) removed (any number of
-   operations, any keys above the dummy root's, any gradients above SMALLEST_GRAD,
-   enough rows).  C05_tree_refines_refuted below exhibits 45 updates after which the
-   concrete tree hides a key the abstract structure sees (a genuine defect of
-   _delete_from_tree, recorded in known_findings.d/C05.json); this Prop only runs the
-   14 queries of bqueries, which do not include that one. *)
+(* ---- UNCLAIMED: the TOTAL version of (T13) on the integer instance: the model never stops
+   (fuel 2*live+8 suffices for insert / delete and no out-of-bounds guard fires), so that the
+   boolean run refines_run is true for every sequence (any length, any keys above the dummy
+   root's, any gradients above SMALLEST_GRAD, enough rows).  What is claimed is (T13)
+   (conditional on the model returning), (T12) (the query never stops) and (T4) (bounded). *)
 Definition tree_refines_status_full_statement : Prop :=
   forall (n : Z) (ops : list zop),
     Z.of_nat (length ops) + 3 <= n ->
@@ -357,7 +414,7 @@ Example C05_tree_ops_nonvacuous :
   has_key Z.ltb 2 (tabs ex_heap [0; 2]) = false /\
   (exists t', t_insert Z.ltb zgt' (fun n : Z => n) zsmall 8 (c_tree ex_state) 3 2 0 = Some t') /\
   (exists m, t_query Z.ltb zgt' (fun n : Z => n) zcon zsmall 8 (c_tree ex_state) 1 tt 0 = Some (QVal m)) /\
-  (exists t' d, t_delete Z.ltb zgt' Z.eqb (fun n : Z => n) 8 (c_tree ex_state) 1 = Some (DOk t' d)) /\
+  (exists t' d, t_delete Z.ltb zgt' (fun n : Z => n) 8 (c_tree ex_state) 1 = Some (DOk t' d)) /\
   (forall a b c, Z.ltb a b = true -> Z.ltb b c = true -> Z.ltb a c = true) /\
   (forall a, Z.ltb a a = false) /\
   (forall a b c, Z.ltb a c = true -> Z.ltb a b = true \/ Z.ltb b c = true).
@@ -377,23 +434,33 @@ Proof.
   intros a b c H. apply Z.ltb_lt in H. destruct (Z.ltb_spec a b); [now left|right; apply Z.ltb_lt; lia].
 Qed.
 
-(* ---- REFUTED for the code as written: "_delete_from_tree re-establishes cached
-   maximum = subtree maximum".  After insert 6 (gradient 1), 1 (0), 5 (0), 3 (0),
-   2 (1), delete 2, delete 5 the root (row 3, key 1) caches the maximum 0 although
-   its right child (row 4, key 6) has min3 = 1: the two-sided invariant Good fails
-   (the skip conditions of the loop after the successor copy, viewshed.py:665-697,
-   leave the ancestors' maxima too LOW).  The query still answers correctly here,
-   because phase 2 walks every nearer node; only the phase-1 shortcut is lost. *)
-Definition stale_state : @cstate Z Z Z :=
-  fold_left (fun s o => snd (zc_step s o)) [CI 6 1; CI 1 0; CI 5 0; CI 3 0; CI 2 1; CD 2; CD 5] zc_init.
+(* ---- the behaviour BEFORE the fix e4337e3 (loops del_up1_prefix / del_up2_prefix of
+   Tree.v), kept as documentation of the defect.  zc_step_prefix runs the pre-fix delete. *)
+Definition cop_of (o : zop) : @cop unit Z Z Z := match o with ZI k v => CI k v | ZD k => CD k end.
+Definition prefix_state (ops : list zop) : @cstate Z Z Z :=
+  fold_left (fun s o => snd (zc_step_prefix s (cop_of o))) ops zc_init.
+Definition fixed_state (ops : list zop) : @cstate Z Z Z :=
+  fold_left (fun s o => snd (zc_step s (cop_of o))) ops zc_init.
+Definition abs_state (ops : list zop) : zstatus :=
+  fold_left (fun st o =>
+    match o with
+    | ZI k v => match st_insert Z.ltb k v st with inr st' => st' | inl _ => st end
+    | ZD k => match del_key Z.ltb k st with Some st' => st' | None => st end
+    end) ops [].
+
+(* (a) pre-fix, the cached maxima could end up too LOW: after insert 6 (gradient 1), 1 (0),
+   5 (0), 3 (0), 2 (1), delete 2, delete 5 the root (row 3, key 1) cached 0 although its
+   right child (row 4, key 6) has min3 = 1: the invariant Good failed.  With the fixed
+   loops the same sequence leaves the root with the cached maximum 1. *)
+Definition stale_ops : list zop := [ZI 6 1; ZI 1 0; ZI 5 0; ZI 3 0; ZI 2 1; ZD 2; ZD 5].
 
 Example C05_tree_delete_max_not_preserved :
-  let h := th (c_tree stale_state) in
-  let root := troot (c_tree stale_state) in
-  root = 3 /\ c_abs stale_state = [(0, zsmall); (1, 0); (3, 0); (6, 1)] /\
+  let h := th (c_tree (prefix_state stale_ops)) in
+  let root := troot (c_tree (prefix_state stale_ops)) in
+  root = 3 /\ c_abs (prefix_state stale_ops) = [(0, zsmall); (1, 0); (3, 0); (6, 1)] /\
   hmax h 3 = 0 /\ hright h 3 = 4 /\ hval h 4 = 1 /\
   ~ Good zgt' (fun n : Z => n) zsmall h root [0; 3; 5; 4] /\
-  refines_run zc_init [] [ZI 6 1; ZI 1 0; ZI 5 0; ZI 3 0; ZI 2 1; ZD 2] = true.
+  hmax (th (c_tree (fixed_state stale_ops))) (troot (c_tree (fixed_state stale_ops))) = 1.
 Proof.
   cbv zeta. split; [vm_compute; reflexivity|]. split; [vm_compute; reflexivity|].
   split; [vm_compute; reflexivity|]. split; [vm_compute; reflexivity|]. split; [vm_compute; reflexivity|].
@@ -404,38 +471,44 @@ Proof.
   vm_compute in X. discriminate.
 Qed.
 
-(* ---- REFUTED for the code as written: "the concrete tree refines the abstract status
-   structure for every operation sequence".  After these 45 inserts / deletes (keys
-   1..16, gradients 0..4) the abstraction still agrees (same live set), but the query for
-   key 16 at gradient 2 returns the maximum 3 (hidden) although no nearer live node has
-   a gradient above 2 (visible_q = true): a cached maximum 3 has survived the deletion
-   of every node it could come from — the ONE-SIDED invariant WGood fails too.  Same
-   input, same answer on the jitted code (harness/props/c05.py STALE_MAX_SEQ). *)
+(* (b) pre-fix, a cached maximum could also end up too HIGH, and the query was then wrong:
+   after these 45 inserts / deletes (keys 1..16, gradients 0..4) the abstraction agrees, but
+   the pre-fix query for key 16 at gradient 2 returned the maximum 3 (hidden) although no
+   nearer live node has a gradient above 2 (visible_q = true).  Same input, same answer on
+   the jitted code before e4337e3 (harness/props/c05.py STALE_MAX_SEQ).  The fixed loops
+   return 2 (visible). *)
 Definition refuting_ops : list zop :=
   [ZI 2 2; ZI 8 4; ZI 12 4; ZI 13 2; ZI 9 3; ZD 12; ZI 5 1; ZI 10 2; ZD 2; ZI 12 1; ZD 8; ZI 6 3; ZI 8 2; ZD 9;
    ZI 9 1; ZD 10; ZD 13; ZD 6; ZI 16 3; ZD 9; ZI 9 2; ZD 12; ZI 13 2; ZD 8; ZI 7 4; ZI 6 3; ZI 10 1; ZI 8 1; ZD 6;
    ZD 10; ZD 5; ZI 11 3; ZI 15 0; ZI 12 2; ZD 9; ZI 3 3; ZD 7; ZI 5 4; ZD 3; ZI 14 1; ZD 13; ZI 13 3; ZD 11; ZD 13;
    ZD 5].
 
-Fixpoint run_both (cs : @cstate Z Z Z) (st : zstatus) (ops : list zop) : option (@cstate Z Z Z * zstatus) :=
-  match ops with
-  | [] => Some (cs, st)
-  | o :: r => match both_step cs st o with
-              | (true, Some (cs', st')) => run_both cs' st' r
-              | _ => None
-              end
-  end.
-
 Example C05_tree_refines_refuted :
-  match run_both zc_init [] refuting_ops with
-  | Some (cs, st) =>
-    c_abs cs = (0, zsmall) :: sort_status st /\
-    sort_status st = [(8, 1); (12, 2); (14, 1); (15, 0); (16, 3)] /\
-    fst (zc_step cs (CQ 16 tt 2)) = RQry 3 /\
-    visible_q Z.ltb zgt' (fun n => n) zcon st 16 tt 2 = true
-  | None => False
-  end.
+  c_abs (prefix_state refuting_ops) = (0, zsmall) :: sort_status (abs_state refuting_ops) /\
+  sort_status (abs_state refuting_ops) = [(8, 1); (12, 2); (14, 1); (15, 0); (16, 3)] /\
+  fst (zc_step_prefix (prefix_state refuting_ops) (CQ 16 tt 2)) = RQry 3 /\
+  visible_q Z.ltb zgt' (fun n => n) zcon (abs_state refuting_ops) 16 tt 2 = true /\
+  fst (zc_step (fixed_state refuting_ops) (CQ 16 tt 2)) = RQry 2.
 Proof. vm_compute. repeat split; reflexivity. Qed.
+
+(* the premises of (T13) hold on the integer instance, and on a concrete sequence the model
+   never stops, so that the conclusion is not the trivial disjunct *)
+Example C05_rbtree_refines_nonvacuous :
+  gle zgt' zsmall zsmall /\
+  (forall (a : unit) g, gle zgt' zsmall g -> hit zgt' zcon g a zsmall = false) /\
+  (forall n (a : unit) g, zgt' n g = true -> hit zgt' zcon g a n = true) /\
+  Forall (op_ok Z.ltb zgt' (fun n : Z => n) zsmall 0)
+         [CI 3 1; CI 1 0; CI 2 2; CQ 3 tt 1; CD 1; CQ 3 tt 1; CD 2; CQ 3 tt 1; CD 7] /\
+  c_run Z.ltb zgt' (fun n : Z => n) zcon zsmall zc_init
+        [CI 3 1; CI 1 0; CI 2 2; CQ 3 tt 1; CD 1; CQ 3 tt 1; CD 2; CQ 3 tt 1; CD 7] =
+    [RIns 0; RIns 3; RIns 3; RQry 2; RDel 3 4; RQry 2; RDel 3 2; RQry zsmall; RNotFound].
+Proof.
+  split; [reflexivity|]. split.
+  { intros a g H. unfold hit, zcon, gle, zgt' in *. exact H. }
+  split. { intros n a g H. unfold hit, zcon. exact H. }
+  split. { repeat constructor; unfold gle, zgt', zsmall; simpl; reflexivity. }
+  vm_compute. reflexivity.
+Qed.
 
 (* the bounded run is not trivially true: it inspects states with five live nodes *)
 Example C05_bounded_nonvacuous :
